@@ -1,4 +1,5 @@
 import RedisVerif.Driver.C07
+import RedisVerif.Driver.C01
 
 open RedisVerif.Driver
 
@@ -8,9 +9,19 @@ partial def loop (h : IO.FS.Stream) (out : IO.FS.Stream) (f : String → String)
   out.putStrLn (f line)
   loop h out f
 
+/-- stateful models: the sub-driver threads its state through the lines -/
+partial def loopState {σ : Type} (h : IO.FS.Stream) (out : IO.FS.Stream) (st : σ)
+    (f : σ → String → σ × String) : IO Unit := do
+  let line ← h.getLine
+  if line.isEmpty then return ()
+  let r := f st line
+  out.putStrLn r.2
+  loopState h out r.1 f
+
 def main (args : List String) : IO UInt32 := do
   let stdin ← IO.getStdin
   let stdout ← IO.getStdout
   match args with
   | ["C07"] => loop stdin stdout C07.step; return 0
+  | ["C01"] | ["C17"] => loopState stdin stdout RedisVerif.Redis.init C01.stepLine; return 0
   | _ => IO.eprintln "usage: rvdriver <property-id> < ops"; return 2
